@@ -29,6 +29,7 @@ var importPool = []string{
 	"import bind $$self/generated /mnt/gen",
 	"import rbind /VB/hostsrc /mnt/host",
 	"import bind /VB/hostsrc/sub /mnt/sub",
+	"import bind $$self/dist%20files /mnt/p%d",
 }
 var weirdImports = []string{
 	"import bind /nonexistent/x /mnt/nx",
@@ -147,6 +148,28 @@ func genLayerTree(g *Gen, t *treeB, l glayer, pf scnProfile, sloppy bool) {
 	t.dir(lp)
 	t.file(lp+"/layerconfig", l.config())
 	incomplete := sloppy && g.Chance(pf.pIncomplete, 100)
+	stray := ""
+	if incomplete && g.Chance(1, 4) {
+		// a stray file where a directory belongs
+		stray = g.Pick("/build", "/overlayfs/workdir", "/overlayfs/upperdir", "/overlayfs")
+		t.file(lp+stray, "stray")
+	}
+	if stray != "" {
+		// nothing else of this layer below the stray file
+		if stray != "/build" {
+			t.dir(lp + "/build")
+			for _, d := range []string{"bin", "etc", "lib", "opt", "root", "sbin", "usr"} {
+				t.dir(lp + "/build/" + d)
+			}
+		}
+		if l.base != "" && stray == "/overlayfs/workdir" {
+			t.dir(lp + "/overlayfs/upperdir")
+		}
+		if l.base != "" && stray == "/overlayfs/upperdir" {
+			t.dir(lp + "/overlayfs/workdir")
+		}
+		return
+	}
 	if !(incomplete && g.Chance(1, 3)) {
 		t.dir(lp + "/build")
 		dirs := []string{"bin", "etc", "lib", "opt", "root", "sbin", "usr"}
@@ -487,6 +510,12 @@ func genExhaustive(g *Gen, tier string, emit func(Case), mode string) {
 	}
 	for i := 0; i < n; i++ {
 		base := genScenario(g, pf)
+		if i%6 == 0 {
+			base = fanoutScenario(g)
+		}
+		if i%6 == 3 && mode == "crash" {
+			base = rewriteScenario(g)
+		}
 		steps := base["steps"].([]interface{})
 		obs, ok := runScenario(base).(map[string]interface{})
 		if !ok || obs["steps"] == nil {
@@ -524,12 +553,78 @@ func genExhaustive(g *Gen, tier string, emit func(Case), mode string) {
 					}
 					ns = append(ns, st)
 				}
+				last := steps[best].(map[string]interface{})
+				if cmdName := str(last["cmd"]); mode == "crash" && (cmdName == "rebase" || cmdName == "rename" || cmdName == "add") {
+					// the interrupted rewrite may leave a complete layerconfig.new behind; a later,
+					// shorter rewrite of the same layer must not inherit its tail
+					who := unhxs(last["args"])[0]
+					if cmdName == "rename" && len(unhxs(last["args"])) > 1 {
+						ns = append(ns, obj("cmd", "rebase", "args", hxs([]string{unhxs(last["args"])[1], ""})))
+					}
+					ns = append(ns, obj("cmd", "rebase", "args", hxs([]string{who, ""})))
+				}
+				if fu, ok := base["followup"].([]interface{}); ok {
+					ns = append(ns, fu...)
+				}
 				ns = append(ns, obj("cmd", "probe", "args", hxs([]string{})))
 				c["steps"] = ns
 				emit(c)
 			}
 		}
 	}
+}
+
+// a parent with three children (long base names, so that rewrites differ in length): rename
+// and rebase are the commands that rewrite several layerconfigs
+func fanoutScenario(g *Gen) Case {
+	t := &treeB{ents: map[string][]interface{}{}}
+	for _, h := range []string{"/", "/dev", "/proc", "/sys", "/run"} {
+		t.ents[h] = []interface{}{hx(h), "d"}
+	}
+	t.dir(VB)
+	t.dir(VB + "/layers")
+	t.dir(VB + "/export")
+	t.file(VB+"/default_layerconfig.skel", "import proc /proc /proc\n")
+	pf := scnProfile{}
+	parent := g.Pick("parentlayerwithalongname", "b0", "Zeta")
+	genLayerTree(g, t, glayer{name: parent, imports: []string{"import proc /proc /proc"}}, pf, false)
+	for _, k := range []string{"k1", "k2", "k3"} {
+		genLayerTree(g, t, glayer{name: k, base: parent, imports: []string{"import proc /proc /proc", "import bind $$self/generated /mnt/gen"}}, pf, false)
+	}
+	steps := []interface{}{
+		obj("cmd", "rename", "args", hxs([]string{parent, g.Pick("p2", "anotherverylongparentlayername")})),
+	}
+	return Case{"op": "scenario", "cfg": defaultCfg(), "tree": t.list(), "host": hostTable(g, false), "steps": steps}
+}
+
+// a layer rebased onto a long-named parent (interrupted at every position) and then onto a
+// short-named one: the second rewrite is shorter than whatever the first left behind
+func rewriteScenario(g *Gen) Case {
+	t := &treeB{ents: map[string][]interface{}{}}
+	for _, h := range []string{"/", "/dev", "/proc", "/sys", "/run"} {
+		t.ents[h] = []interface{}{hx(h), "d"}
+	}
+	t.dir(VB)
+	t.dir(VB + "/layers")
+	t.dir(VB + "/export")
+	t.file(VB+"/default_layerconfig.skel", "import proc /proc /proc\n")
+	pf := scnProfile{}
+	long := g.Pick("aparentlayerwithaverylongnameindeed0", "Gentoo-2024-stage3-amd64-openrc-desktop")
+	short := g.Pick("r2", "b")
+	genLayerTree(g, t, glayer{name: long, imports: []string{"import proc /proc /proc"}}, pf, false)
+	genLayerTree(g, t, glayer{name: short, imports: []string{"import proc /proc /proc"}}, pf, false)
+	kid := glayer{name: "kid", base: short, imports: []string{"import proc /proc /proc"},
+		exports: []string{"export symlink $$self/generated/a $$file_export/a", "export symlink $$self/generated/b $$file_export/b"}}
+	if g.Chance(1, 2) {
+		kid.exports = nil
+	}
+	genLayerTree(g, t, kid, pf, false)
+	steps := []interface{}{obj("cmd", "rebase", "args", hxs([]string{"kid", long}))}
+	fu := []interface{}{obj("cmd", "rebase", "args", hxs([]string{"kid", short}))}
+	if g.Chance(1, 3) {
+		fu = []interface{}{obj("cmd", "rebase", "args", hxs([]string{"kid", ""}))}
+	}
+	return Case{"op": "scenario", "cfg": defaultCfg(), "tree": t.list(), "host": hostTable(g, false), "steps": steps, "followup": fu}
 }
 
 func init() {
